@@ -84,47 +84,51 @@ def check_single(line, hout, dout, stats, notes):
     bad = []
     if hout.startswith("crash") or hout.startswith("throw"):
         return [("%s:crash" % cls, "the correction crashed / threw on a fault script (%s)" % hout[:60])]
-    h = dict(x.split("=", 1) for x in hout.split())
-    d = dict(x.split("=", 1) for x in dout.split())
-    log = parse_log(h["log"])
-    wrapped, rest = consulted_failures(cls, log)
+    hs, ds = hout.split(), dout.split()
     size_fail = cls == "sukf" and m % sub != 0      # SUKF's own early return (size not divisible by the sub-size)
-    labs = labset(h["out"])
-    stats["observations"] = stats.get("observations", 0) + 1
-    if h["out"].startswith("ambiguous"):
-        stats["uninformative"] = stats.get("uninformative", 0) + 1
-    if h["in"] != "same":
-        bad.append(("%s:input-modified" % cls, "the predicted belief passed in was modified"))
-    if cls == "glik":
-        if rest and "none" not in labs:
-            bad.append(("glik:value-reported-on-failure:%s" % rest[0], "GaussianLikelihood reported a value although %s was unavailable" % rest[0]))
-    elif cls.startswith("gpf-"):
-        if rest and "pred" not in labs:
-            bad.append(("%s:belief-touched:likelihood-%s" % (cls, rest[0]), "likelihood unavailable (%s) but the corrected particle set differs from the predicted one (%s)" % (rest[0], h["out"])))
-        elif wrapped and not rest and "pred" not in labs:
-            if "partial" in labs:
-                bad.append((KNOWN_GPF_KEY, "GPFCorrection(%s): %s unavailable inside the wrapped Gaussian correction (which returns the predicted belief) while the likelihood is valid: "
-                            "positions are redrawn and weights updated around the uncorrected Gaussians instead of returning the predicted set" % (cls, wrapped[0])))
-            else:
-                bad.append(("%s:belief-touched:wrapped-%s" % (cls, wrapped[0]), "%s unavailable inside the wrapped correction; corrected set is neither the predicted one nor the known partial update (%s)" % (wrapped[0], h["out"])))
-    else:
-        fails = rest + (["size"] if size_fail else [])
-        if fails and "pred" not in labs:
-            bad.append(("%s:belief-touched:%s" % (cls, fails[0]), "%s unavailable but the corrected belief differs from the predicted one (%s)" % (fails[0], h["out"])))
-    # comparison with the model: notes only
-    if d.get("out") not in labs:
-        notes.append((line, "label", h["out"], d.get("out")))
-    if d.get("log") != h["log"]:
-        notes.append((line, "call-log", h["log"], d.get("log")))
-    else:
-        stats["logs_identical"] = stats.get("logs_identical", 0) + 1
-    # coverage of the model's branches, from the model's own output
-    mlog = parse_log(d.get("log", "-"))
-    exit_ = d.get("out", "?")
-    if exit_ in ("pred", "none"):
-        exit_ = "return-at-" + (mlog[-1][0] if mlog and not mlog[-1][1] else "size-check")
     br = stats.setdefault("branches", {})
-    br["%s:%s" % (cls, exit_)] = br.get("%s:%s" % (cls, exit_), 0) + 1
+    for i, tok in enumerate(hs):
+        _, lab, calls, same = tok.split(":")
+        mtok = ds[i].split(":") if i < len(ds) else [None, None, None]
+        where = "call %d: " % i if len(hs) > 1 else ""
+        log = parse_log(calls)
+        wrapped, rest = consulted_failures(cls, log)
+        labs = labset(lab)
+        stats["observations"] = stats.get("observations", 0) + 1
+        if lab.startswith("ambiguous"):
+            stats["uninformative"] = stats.get("uninformative", 0) + 1
+        if same != "same":
+            bad.append(("%s:input-modified" % cls, where + "the predicted belief passed in was modified"))
+        if cls == "glik":
+            if rest and "none" not in labs:
+                bad.append(("glik:value-reported-on-failure:%s" % rest[0], where + "GaussianLikelihood reported a value although %s was unavailable" % rest[0]))
+        elif cls.startswith("gpf-"):
+            if rest and "pred" not in labs:
+                bad.append(("%s:belief-touched:likelihood-%s" % (cls, rest[0]), where + "likelihood unavailable (%s) but the corrected particle set differs from the predicted one (%s)" % (rest[0], lab)))
+            elif wrapped and not rest and "pred" not in labs:
+                if "partial" in labs:
+                    bad.append((KNOWN_GPF_KEY, where + "GPFCorrection(%s): %s unavailable inside the wrapped Gaussian correction (which returns the predicted belief) while the likelihood is valid: "
+                                "positions are redrawn and weights updated around the uncorrected Gaussians instead of returning the predicted set" % (cls, wrapped[0])))
+                else:
+                    bad.append(("%s:belief-touched:wrapped-%s" % (cls, wrapped[0]), where + "%s unavailable inside the wrapped correction; corrected set is neither the predicted one nor the known partial update (%s)" % (wrapped[0], lab)))
+        else:
+            fails = rest + (["size"] if size_fail else [])
+            if fails and "pred" not in labs:
+                bad.append(("%s:belief-touched:%s" % (cls, fails[0]), where + "%s unavailable but the corrected belief differs from the predicted one (%s)" % (fails[0], lab)))
+        # comparison with the model: notes only
+        if mtok[1] not in labs:
+            notes.append((line, "label of call %d" % i, lab, mtok[1]))
+        if mtok[2] != calls:
+            notes.append((line, "call-log of call %d" % i, calls, mtok[2]))
+        else:
+            stats["logs_identical"] = stats.get("logs_identical", 0) + 1
+        # coverage of the model's branches, from the model's own output
+        if mtok[1] is not None:
+            mlog = parse_log(mtok[2])
+            exit_ = mtok[1]
+            if exit_ in ("pred", "none"):
+                exit_ = "return-at-" + (mlog[-1][0] if mlog and not mlog[-1][1] else "size-check")
+            br["%s:%s" % (cls, exit_)] = br.get("%s:%s" % (cls, exit_), 0) + 1
     return bad
 
 
@@ -241,12 +245,38 @@ def random_cases(g, count):
             k = max(k, 3)
         p = r.choice([0.1, 0.3, 0.6])
         sc = {x: [r.random() >= p for _ in range(r.randint(0, 8))] for x in METHODS}
-        cases.append((mkline(cls, r.randint(0, 99999), n, m, k, sub, sc), {"style": "random", "cls": cls}))
+        ln = mkline(cls, r.randint(0, 99999), n, m, k, sub, sc)
+        if not cls.startswith("sis-") and r.random() < 0.6:
+            ln += " reps=%d" % r.randint(2, 5)       # successive correct() calls on the same object
+        cases.append((ln, {"style": "random", "cls": cls}))
+    return cases
+
+
+def sequence_cases(g):
+    """the same object corrected three times: valid / failing / valid in every order, failing call at each method"""
+    r = g.r
+    cases = []
+    for cls in ["kf", "ukfa", "ukfg", "sukf", "glik", "bootg", "boots"] + ["gpf-%s-%s" % (w, l) for w in GAUSS for l in "gs"]:
+        meths = ["li"] if cls == "boots" else ["me", "pr", "in", "no"] + (["li"] if cls.endswith("-s") else [])
+        for mth in meths:
+            for pat in ([True, False, True], [False, True, False], [False, False, True], [True, True, False]):
+                n, m, k = sizes(r, True)
+                sub = r.choice([d for d in (1, 2, 3) if m % d == 0]) if "sukf" in cls else 1
+                per = 2 if (cls.startswith("gpf-") and cls.endswith("-g") and mth != "li") else 1
+                if mth == "no" and "sukf" in cls:
+                    continue        # position of the likelihood's fetch depends on earlier outcomes: left to the random part
+                sc = {mth: [b for b in pat for _ in range(per)]}
+                cases.append((mkline(cls, r.randint(0, 99999), n, m, k, sub, sc) + " reps=3", {"style": "sequence", "cls": cls}))
     return cases
 
 
 def run(ctx):
     ctx.proof_stage()
+    if not ctx.quick():
+        badck = vlib.leanchecker(["BFL.Model.Fault", "BFL.Proofs.Fault", "BFL.Props.C12"])
+        ctx.coverage["leanchecker"] = "ok" if not badck else "FAILED: %s" % badck[:2]
+        if badck:
+            ctx.violation("leanchecker", "leanchecker rejected the compiled modules: %s" % badck[:1], {"modules": [b[0] for b in badck]}, no_input=True)
     binary = vlib.build_harness("h_fault")
     cases = []
     if ctx.replay:
@@ -258,8 +288,9 @@ def run(ctx):
         corpus = vlib.VERIF / "corpus" / "C12" / "cases.txt"
         if corpus.exists():
             cases += [(ln.strip(), {"style": "corpus", "cls": ln.split()[1]}) for ln in corpus.read_text().split("\n") if ln.strip() and not ln.startswith("#")]
-        cases += exhaustive_cases(ctx.gen("fault-exh"), ctx.n(2, 6))
-        cases += random_cases(ctx.gen("fault-rnd"), ctx.n(800, 30000))
+        cases += exhaustive_cases(ctx.gen("fault-exh"), ctx.n(3, 6))
+        cases += sequence_cases(ctx.gen("fault-seq"))
+        cases += random_cases(ctx.gen("fault-rnd"), ctx.n(4000, 30000))
     lines = [c[0] for c in cases]
     hout, logs = vlib.run_harness(binary, lines)
     dout = vlib.run_driver(lines)
@@ -291,16 +322,19 @@ def run(ctx):
                 "components and measurement size >= 2), output container pre-filled with poison; exhaustive part: every combination of answers "
                 "at the first call of each method for kf / ukfa / ukfg / glik / bootg (16), sukf x 7 size pairings (32 each, incl. sizes not "
                 "divisible by the sub-size), boots (2), gpf-<kf|ukfa|ukfg|sukf>-g over the first two calls of each method (256 each), "
-                "gpf-*-s (32 each), the real SIS thread over all freeze patterns of 3 steps x likelihood faults; plus random longer scripts; "
+                "gpf-*-s (32 each), the real SIS thread over all freeze patterns of 3 steps x likelihood faults; plus three successive correct() calls "
+                "on one object with valid/failing patterns per method, plus random longer scripts (60 % with 2..5 successive calls); "
                 "non-trivial = at least one scripted 'unavailable' answer; distinct = distinct input lines",
         "samples": [lines[0][:300], lines[len(lines) // 2][:300], lines[-1][:300]],
-        "exhaustive": {"class_x_failing_subset": True},
+        "exhaustive": True,
+        "exhaustive_scope": "class x subset of failing call sites (complete for the call sites listed in rule); sequences and random longer scripts are sampled on top",
         "style_histogram": hist, "class_histogram": dict(sorted(chist.items())),
         "cases_with_a_scripted_failure": failing,
         "traces_validated_against_impl": len(cases),
         "call_logs_identical_to_model": stats.get("logs_identical", 0),
         "model_branch_hits": dict(sorted(stats.get("branches", {}).items())),
         "property_failures_on_impl": len(prop_bad),
+        "property_failures_by_key": {k: sum(1 for x in prop_bad if x[0] == k) for k in sorted(set(x[0] for x in prop_bad))},
         "model_vs_impl_differences_noted": len(notes),
         "sanitizer_crashes": len(logs),
         "observations": stats.get("observations", 0),
